@@ -94,6 +94,7 @@ func monitorUCI(sc *UCIScenario, out *UCIOutcome) (vs []Violation, windows []*go
 	callIdx := 0
 	stubLineIdx := map[*goWindow]int{}
 	giveup := false
+	stopIgnored := false
 	for _, e := range out.Events {
 		switch e.Kind {
 		case "IN":
@@ -216,8 +217,19 @@ func monitorUCI(sc *UCIScenario, out *UCIOutcome) (vs []Violation, windows []*go
 		case "STUCK":
 			add("C13", "deadlock", "no party can make progress and no timer is armed, but Run has not returned / a bestmove is owed", e.Seq)
 		case "DRAIN-GIVEUP":
-			giveup = true
+			if cur != nil && owed && cur.stopReason != "" {
+				// the GUI had told the engine to stop (or went away) and the search
+				// was still polling a few hundred thousand polls later
+				add("C13", "liveness", fmt.Sprintf("search still running %s polls after %q was sent during it (go=%q)", "400000", cur.stopReason, cur.goLine), e.Seq)
+				stopIgnored = true
+			} else {
+				giveup = true
+			}
 		}
+	}
+	if stopIgnored {
+		// everything after the harness unwound the search is an artefact
+		return vs, windows
 	}
 	if giveup {
 		// a search with no reason to end was still running when the harness
